@@ -143,6 +143,27 @@ def outcome_reader_resume(data, labelmsm):
         return ("err", type(e).__name__)
 
 
+def outcome_reader_second(data, labelmsm):
+    """`data` = a good frame directly followed by ITS OWN COPY with damaged checksum bytes, through one validating
+    raise-mode reader: the outcome reported is that of the SECOND item."""
+    import io
+
+    from pyrtcm import RTCMReader
+
+    it = iter(RTCMReader(io.BytesIO(data), validate=1, quitonerror=2, labelmsm=labelmsm))
+    try:
+        next(it)
+    except Exception:
+        return ("n", "first frame refused")
+    try:
+        raw, m = next(it)
+        return ("ok", m.identity, tuple((k, v) for k, v in m.__dict__.items() if not k.startswith("_")))
+    except StopIteration:
+        return ("n", 0)
+    except Exception as e:
+        return ("err", type(e).__name__)
+
+
 def outcome_parse_v0(frame, labelmsm):
     """Static parse with validation OFF (accepts wrong checksum bytes)."""
     from pyrtcm import RTCMReader
@@ -156,7 +177,7 @@ def outcome_parse_v0(frame, labelmsm):
 
 OPS = {"ctor": outcome_ctor, "parse": outcome_parse, "reader": outcome_reader, "parse_tmp": outcome_parse_tmp,
        "reader_tmp": outcome_reader_tmp, "sockreader": outcome_sockreader, "reader_resume": outcome_reader_resume,
-       "parse_v0": outcome_parse_v0}
+       "parse_v0": outcome_parse_v0, "reader_second": outcome_reader_second}
 
 
 def same(a, b):
@@ -305,12 +326,27 @@ def build_corpus(seed, per_identity):
         bad = other[:-1] + bytes([other[-1] ^ 0x21])
         corpus.append(dict(op="reader_resume", data=bad + good, labelmsm=1, tag="resume-after-error", enc=None,
                            fails=False, base_op="ctor", base_data=good[3:-3]))
+    # a good frame and right behind it its copy with damaged checksum bytes, through one validating reader: the copy
+    # is refused exactly as it is when it arrives alone
+    for _ in range(12):
+        good = refcrc.frame(streams.rand_defined_payload(rng, rng.choice(("1005", "1006", "1033", "1230", "1007"))))
+        bad = good[:-3] + bytes([good[-3] ^ 0x40, good[-2], good[-1] ^ 0x01])
+        corpus.append(dict(op="reader_second", data=good + bad, labelmsm=1, tag="copy-with-bad-crc", enc=None,
+                           fails=True, base_op="reader", base_data=bad))
     # the same wrong-checksum frame with validation off (accepted) and on (refused), to be run back to back
     for _ in range(12):
         fr = refcrc.frame(streams.rand_defined_payload(rng))
         bad = fr[:-1] + bytes([fr[-1] ^ 0x08])
         corpus.append(dict(op="parse_v0", data=bad, labelmsm=1, tag="v0-twin", enc=None, fails=False))
         corpus.append(dict(op="parse", data=bad, labelmsm=1, tag="v1-twin", enc=None, fails=True))
+    # frames of the repository's recorded logs (realistic content and repetition)
+    from vf import common as _c
+
+    for name_, fr_ in _c.recorded_frames():
+        corpus.append(dict(op=rng.choice(("parse", "reader", "ctor")), data=fr_, labelmsm=rng.choice((1, 2)),
+                           tag="recorded", enc=None, fails=False))
+        if corpus[-1]["op"] == "ctor":
+            corpus[-1]["data"] = fr_[3:-3]
     for p in (b"", b"\x3e", b"\xfe\xc0", b"\x43\x50"):
         corpus.append(dict(op="ctor", data=p, labelmsm=1, tag="short", enc=None, fails=True))
     return corpus
